@@ -22,7 +22,7 @@ import (
 
 type c18target struct {
 	name string
-	col  gen.Col     // typed catalog target (nil when custom)
+	col  gen.Col // typed catalog target (nil when custom)
 	data proto.ColResult
 	kind *gen.Kind
 	prev []ref.Val // content before this block (for "untouched")
